@@ -9,6 +9,7 @@
  *   hash <hex> <len>                        lyht_hash      -> ok <hash>
  *   getop <hex> <pos>                       lysc_iff_getop -> ok <op>
  *   setop <hex> <op> <pos>                  iff_setop      -> ok <hex>
+ *   xmldump <attr> <hex | N> / jsonprint <hex | N>       lyxml_dump_text / json_print_string into a memory stream -> ok <ret> <hex>
  *   fixedsize <n>                           lyht_get_fixed_size -> ok <n>
  *   grow <used> <size> <resize> / shrink <used> <size>   slices of the insert / remove load-factor tests (fn_slices_FnHt.h)
  *   lybmask <hash> <cid> / extlen <cid> <len>            slices of lyb_generate_hash (fn_slices_FnLyb.h)
@@ -19,6 +20,8 @@
 #include "ly_common.c"
 #include "hash_table.c"
 #include "schema_features.c"
+#include "xml.c"
+#include "printer_json.c"
 #include "lyb.h"
 #include "proto.h"
 #include "fn_slices_FnHt.h"
@@ -88,6 +91,16 @@ main(void)
             char *s = exact(r.tok[3], &n, 0);
             iff_setop((uint8_t *)s, strtoul(r.tok[4], NULL, 10), strtoull(r.tok[5], NULL, 10));
             vp_begin(id, "ok"); vp_field_hex(s, n); vp_end(); free(s);
+        } else if ((!strcmp(op, "xmldump") && r.ntok == 5) || (!strcmp(op, "jsonprint") && r.ntok == 4)) {
+            int x = op[0] == 'x';
+            const char *h = r.tok[x ? 4 : 3];
+            char *t = strcmp(h, "N") ? exact(h, &n, 1) : NULL, *mem = NULL;
+            struct ly_out *out;
+            LY_ERR ret;
+            ly_out_new_memory(&mem, 0, &out);
+            ret = x ? lyxml_dump_text(out, t, atoi(r.tok[3])) : json_print_string(out, t);
+            vp_begin(id, "ok"); vp_field_u(ret); vp_field_hex(mem ? mem : "", mem ? strlen(mem) : 0); vp_end();
+            ly_out_free(out, NULL, 0); free(mem); free(t);
         } else if (!strcmp(op, "fixedsize") && r.ntok == 4) {
             vp_begin(id, "ok"); vp_field_u(lyht_get_fixed_size(strtoul(r.tok[3], NULL, 10))); vp_end();
         } else if (!strcmp(op, "grow") && r.ntok == 6) {
